@@ -447,10 +447,32 @@ class NpProxy:
             return out[()]
         return out.view(SymArray)
 
-    def minimum(self, a, b):
+    def _minmax_kw(self, a, b, kind, out=None, where=True, **kw):
+        """ufunc keywords `out=` / `where=`: the mask is decided element by element in Python (a symbolic mask
+        forks here, not inside NumPy's C cast), then the plain result is written through it"""
+        if kw:
+            raise NotImplementedError(f"np.{kind}imum: keyword(s) {sorted(kw)} have no symbolic counterpart")
+        r = _np.asarray(self._minmax(a, b, kind))
+        if out is None:
+            if where is not True:
+                raise NotImplementedError(f"np.{kind}imum(where=) without out= leaves entries uninitialised")
+            return r
+        target = out[0] if isinstance(out, tuple) else out
+        mask = _np.broadcast_to(_np.asarray(where, dtype=object), target.shape)
+        r = _np.broadcast_to(r, target.shape)
+        for idx in _np.ndindex(target.shape):
+            if bool(mask[idx]):
+                target[idx] = r[idx]
+        return target
+
+    def minimum(self, a, b, **kw):
+        if kw:
+            return self._minmax_kw(a, b, "min", **kw)
         return self._minmax(a, b, "min")
 
-    def maximum(self, a, b):
+    def maximum(self, a, b, **kw):
+        if kw:
+            return self._minmax_kw(a, b, "max", **kw)
         return self._minmax(a, b, "max")
 
     # -- reductions with data-dependent control ----------------------------------------
